@@ -3,6 +3,7 @@ package mempool
 import (
 	"fmt"
 	"os"
+	"path/filepath"
 	"strings"
 	"sort"
 	"sync"
@@ -39,6 +40,15 @@ func Explore(ctx *vrun.Ctx, u *Universe, coverage, withMining bool) (*Model, *tl
 		cfgTail += "PROPERTY RejectedUnchanged\n" // costs a factor 2-3 in TLC time
 	}
 	tlaText, cfgText := u.Module(mod, base, c, defs, cfgTail)
+	if d := os.Getenv("VERIF_EMIT_EXAMPLES"); d != "" { // writes the generated model as MC_<universe>.tla/.cfg for stand-alone TLC runs
+		name := "MC_" + u.Name
+		if withMining {
+			name = "MCMining_" + u.Name
+		}
+		exText, exCfg := u.Module(name, base, c, defs, cfgTail)
+		os.WriteFile(filepath.Join(d, name+".tla"), []byte(exText), 0o644)
+		os.WriteFile(filepath.Join(d, name+".cfg"), []byte(exCfg), 0o644)
+	}
 	// A scripted universe is a single deterministic schedule: its graph is rebuilt from the
 	// state records TLC prints (dumping hundred-transaction states as dot labels is slow).
 	scripted := len(u.Scripted) > 0
@@ -96,6 +106,17 @@ func universesFor(ctx *vrun.Ctx, mining bool) []*Universe {
 	}
 	if ctx.Thorough {
 		n = 12
+	}
+	if only := os.Getenv("VERIF_UNIVERSES"); only != "" { // debugging aid: run the named built-in universes only
+		var sel []*Universe
+		for _, u := range append(BuiltinUniverses(), EvictionBoundary()) {
+			for _, n := range strings.Split(only, ",") {
+				if u.Name == n {
+					sel = append(sel, u)
+				}
+			}
+		}
+		return sel
 	}
 	rng := ctx.Rand("universes")
 	for i := 0; i < n; i++ {
@@ -250,7 +271,7 @@ func runBoth(ctx *vrun.Ctx, mining bool) error {
 			missing = append(missing, a)
 		}
 	}
-	if len(missing) > 0 {
+	if len(missing) > 0 && os.Getenv("VERIF_UNIVERSES") == "" {
 		return fmt.Errorf("vacuity: actions never taken in any universe: %v", missing)
 	}
 	ctx.SetExtra("universes", int64(len(us)))
